@@ -14,6 +14,7 @@ import datetime
 import itertools
 import json
 import os
+import random
 import struct
 import subprocess
 import sys
@@ -1612,6 +1613,8 @@ def suite_messages(ctx, m):
             msg = gen_message(m, rng, tmpl, True)
             if has_packed:
                 nontriv += 1
+            if i == 0 and has_packed:
+                _poison(m, ser, tmpl, packed, rng)
             if len(pairs) < ctx.pick(6000, 60000):
                 for b in tmpl.blocks:
                     for blk in msg.blocks.get(b.name, ()):
@@ -1630,6 +1633,36 @@ def suite_messages(ctx, m):
     packing_table_leg(ctx, m, res, pairs)
     res.samples = [{"message": "EnableSimulator", "forms": ["dict", "xml"]}]
     return res
+
+
+def _poison(m, ser, tmpl, packed, rng):
+    """the SAME serializer object first meets this message type in an operation that fails part-way: a message whose LAST
+    template-packed variable holds something unpackable, then an event dict that lacks that field.  A rejected message must leave
+    nothing behind for the valid ones that follow."""
+    try:
+        bad = gen_message(m, rng, tmpl, True)
+        last = None
+        for b in tmpl.blocks:
+            for v in b.variables:
+                if v.type.name in packed and bad.blocks.get(b.name):
+                    last = (b.name, v.name)
+        if not last:
+            return
+        for blk in bad.blocks[last[0]]:
+            blk[last[1]] = object()
+        try:
+            ser.serialize(bad, True)
+        except Exception:
+            pass
+        try:
+            good = ser.serialize(gen_message(m, random.Random(1), tmpl, True), True)
+            for blk in good["body"].get(last[0], []):
+                blk.pop(last[1], None)
+            ser.deserialize(good)
+        except Exception:
+            pass
+    except Exception:
+        pass
 
 
 def m_packed_types(m):
@@ -1706,6 +1739,13 @@ def replay(ctx, case):
         from hippolyzer.lib.base.message.llsd_msg_serializer import LLSDMessageSerializer
         mj = case["body"] if isinstance(case["body"], dict) and "body" in case["body"] and "message" in case["body"] \
             else {"message": case["message"], "body": case["body"]}
-        v = check_message(m, LLSDMessageSerializer(), dec_msg(m, mj), case["form"])
+        ser_ = LLSDMessageSerializer()
+        try:
+            # as in the suite: the serializer has first rejected a message of this type part-way
+            from hippolyzer.lib.base.message.template_dict import DEFAULT_TEMPLATE_DICT as _TD
+            _poison(m, ser_, _TD.get_template_by_name(mj["message"]), set(t.name for t in m_packed_types(m)), random.Random(0))
+        except Exception:
+            pass
+        v = check_message(m, ser_, dec_msg(m, mj), case["form"])
         return (v is not None), (v or "holds")
     return False, "unrecognised case"
